@@ -18,6 +18,7 @@ BASES = {
     "r1": ("refuse", "accept"),
     "r3": ("refuse",) * 3 + ("accept",),
     "r7": ("refuse",) * 7 + ("accept",),
+    "r12": ("refuse",) * 12 + ("accept",),            # long enough for an uncapped exponential delay to pass five minutes
     "u2": ("unreachable", "timeout", "accept"),       # failing connects that are OSError / TimeoutError, not ConnectionError
     "n2": ("noport", "noport", "accept"),             # serial port missing (SerialException)
 }
@@ -45,7 +46,8 @@ def make_kwargs_factory(kind, base, status_mode="ok", recv_mode="ok", with_send=
                     script=[it_connect, it_feed(a[:7]), it_feed(a[7:]), it_feed(pk["BAD"] + pk["RAISE"]), it_feed(pk["A2"])]
                            + ([it_send(lambda: clientkit.heading_message(66))] if with_send else []),
                     specials=sp, deviations=devs, heal=steady_state(pk["PROBE"]),
-                    connect_plan=BASES[base], status_cb=status_mode, recv_cb=recv_mode)
+                    connect_plan=BASES[base], status_cb=status_mode, recv_cb=recv_mode,
+                    settle=330.0)      # waits of up to five and a half minutes are followed (a delay capped anywhere below is fine)
     return make
 
 
@@ -118,7 +120,7 @@ def judge(kind, sess, o, probe_view):
         gaps = [round(b - a, 6) for a, b in zip(r, r[1:])]
         if any(g <= 0 for g in gaps):
             out.append(("backoff_zero", {}, f"gaps {gaps}"))
-        elif any(g > 30.0 for g in gaps):
+        elif any(g > 300.0 for g in gaps):          # 'capped': no particular cap is required, but twelve refusals must not lead to delays of minutes on end
             out.append(("backoff_uncapped", {}, f"gaps {gaps}"))
         elif any(y < x - 1e-9 for x, y in zip(gaps, gaps[1:])):
             out.append(("backoff_shrinks", {}, f"gaps {gaps}"))
@@ -175,6 +177,7 @@ def plan(ctx):
                 tasks.append((kind, "r0", 2, names, [f]))
             tasks.append((kind, "r3", 2, names, None))
             tasks.append((kind, "r7", 1, names, None))
+            tasks.append((kind, "r12", 1, ["eof", "reset"], None))
             tasks.append((kind, "n2" if kind == "waveshare" else "u2", 2, names, None))
         else:
             for f in names:
@@ -182,6 +185,7 @@ def plan(ctx):
             tasks.append((kind, "r0", 1, names, None))
             tasks.append((kind, "r3", 1, names, None))
             tasks.append((kind, "r7", 1, ["eof", "reset"], None))
+            tasks.append((kind, "r12", 1, ["eof"], None))
             tasks.append((kind, "n2" if kind == "waveshare" else "u2", 1, names, None))
         for modes in (("slow", "ok"), ("raise", "raise"), ("ok", "slow"), ("ok", "send")):
             tasks.append((kind, "r1", 2 if ctx.thorough else 1, names, None, modes))
